@@ -137,9 +137,13 @@ func (p *c13H3Peer) serveStream(str quic.Stream) {
 				for _, hf := range hfs {
 					att.fields = append(att.fields, c13Field{hf.Name, hf.Value})
 				}
+				att.live = p.liveFor(att.fields)
 			}
 		case 0x0: // DATA
 			att.payload += string(payload)
+			if att.live != nil {
+				att.live.gotUpload(len(payload))
+			}
 		}
 	}
 	if !gotHeaders {
@@ -151,6 +155,16 @@ func (p *c13H3Peer) serveStream(str quic.Stream) {
 		out = append(out, c13H3Frame(0x1, c13QpackBlock(blk))...)
 	}
 	out = append(out, c13H3Frame(0x1, c13QpackBlock(resp.fields))...)
+	if att.live != nil {
+		// interactive download: one DATA frame per piece, the next only after the caller read the previous
+		str.Write(out)
+		for j, piece := range att.live.down {
+			str.Write(c13H3Frame(0x0, []byte(piece)))
+			att.live.waitRead(j)
+		}
+		str.Close()
+		return
+	}
 	data := resp.wire
 	n := resp.pieces
 	if n < 1 {
